@@ -6,7 +6,7 @@ open Canine Canine.Rns Driver
 
 def canon (s : State) : State :=
   { s with names := sortMap s.names, forsale := sortMap s.forsale, bids := sortMap s.bids,
-           inits := sortMap s.inits, primary := sortMap s.primary, bank := canonBank s.bank }
+           inits := sortMap s.inits, primary := sortMap s.primary, bank := canonBank s.bank, canon := sortMap s.canon }
 
 def wellFormed (s : State) : Bool :=
   keysNodup s.names && keysNodup s.forsale && keysNodup s.bids && keysNodup s.inits &&
